@@ -36,6 +36,7 @@ def frame(n):
         "yq": [["level one", "b two", "a-3"][(2 * k + k // 3) % 3] for k in i],
         "y1": ["only"] * n,  # a categorical response with a single level
         "ye": [["", "b", " "][(k + k // 2) % 3] for k in i],  # an empty and a blank level name
+        "yw": [["New York", "New  York", "Bos\tton"][(k + k // 3) % 3] for k in i],  # levels that differ only in the run of blanks; a tab
     })
     df["yu"] = pd.Categorical(df["ys"], categories=["mid", "high", "low"])  # unordered: sorted order applies
     df["yo"] = pd.Categorical(df["ys"], categories=["low", "mid", "high"], ordered=True)  # declared order applies
@@ -52,6 +53,10 @@ for col, order in (("ys", "sorted"), ("yu", "sorted"), ("yo", "declared")):
 RESP.append({"text": "yq", "kind": "cat", "col": "yq", "order": "sorted"})
 RESP.append({"text": "y1", "kind": "cat", "col": "y1", "order": "sorted"})
 RESP.append({"text": "ye", "kind": "cat", "col": "ye", "order": "sorted"})
+RESP.append({"text": "yw", "kind": "cat", "col": "yw", "order": "sorted"})
+for _q in ("'", '"'):
+    for _lvl in ("New York", "New  York", "Bos\tton"):
+        RESP.append({"text": f"yw[{_q}{_lvl}{_q}]", "kind": "level", "col": "yw", "level": _lvl})
 for _q in ("'", '"'):
     for _lvl in ("", " ", "b"):
         RESP.append({"text": f"ye[{_q}{_lvl}{_q}]", "kind": "level", "col": "ye", "level": _lvl})
@@ -85,6 +90,8 @@ def units(tier, seed):
     for n in (NS if tier == "quick" else [7, 10, 13, 16, 25]):
         for rhs in rhss:
             u.append([{"n": n, "rhs": rhs}])
+    for n in NS:
+        u.append([{"nadrop": True, "n": n}])
     for n in (1, 2):  # frames with a single row / two rows
         for rhs in ("x", "0 + x", "1", "x + z"):
             u.append([{"n": n, "rhs": rhs}])
@@ -183,11 +190,44 @@ def check_reuse(case, acc):
         acc.case(case, "ok", nontrivial=True)
 
 
+def check_nadrop(case, acc):
+    """Rows dropped for a missing predictor: the response is the response of the design built on the retained rows."""
+    df = frame(case["n"]).copy()
+    df.loc[[1, 4], "x"] = np.nan
+    kept = df.drop(index=[1, 4]).reset_index(drop=True)
+    problems = []
+    texts = ["center(y)", "scale(y)", "standardize(y)", "binary(ys)", "B(ys, 'mid')", "np.log(y)", "I(y - np.mean(y))", "poly(y, 2)"] + [r["text"] for r in RESP]
+    for text in texts:
+        f = f"{text} ~ x"
+        acc.calls += 2
+        acc.traces += 1
+        try:
+            want = resp_view(build(f, kept))
+        except Exception:
+            continue
+        try:
+            got = resp_view(build(f, df))
+        except Exception as e:
+            problems.append(f"{f!r} with two incomplete rows raised {type(e).__name__}: {e}")
+            continue
+        same = all((a.shape == b.shape and np.allclose(a.astype(float), b.astype(float), rtol=1e-13, atol=0, equal_nan=True)) if isinstance(a, np.ndarray) else a == b for a, b in zip(got, want))
+        if not same:
+            problems.append(f"{f!r}: with rows 1 and 4 dropped for a missing predictor, the response is not the response of the design on the retained rows")
+    acc.subcases(case, len(texts) - 1, True, "response-forms")
+    if problems:
+        acc.case(case, "MISMATCH")
+        acc.violation("response-of-the-retained-rows", "mismatch", case, "; ".join(problems[:3]))
+    else:
+        acc.case(case, "ok", nontrivial=True)
+
+
 def check_case(case, acc):
     from fmc.core import exc_sig
 
     if case.get("reuse"):
         return check_reuse(case, acc)
+    if case.get("nadrop"):
+        return check_nadrop(case, acc)
 
     if case.get("invalid"):
         problems = []
